@@ -679,7 +679,7 @@ impl CaseDriver for Dag {
     fn describe(&self, t: Tier) -> Describe {
         Describe {
             rule: format!(
-                "placed libraries of n = {}..={} cells: every DAG (cell i may instantiate any subset of the cells j < i) x every listing order of the cells (n!) x reflection base (instance k of a cell gets combination (base+k) mod 4, so all four occur) x content profile (0/1/2 assignments and cuts per layout, witness quadruples with four different numbers); value deviations (transport: message as exported / through prost encode+decode, library / cell names incl. empty and non-ASCII, outline 1-3 steps / repeated step / zero, metals 0..3, views layout / layout+abstract / abstract-only leaf, a layout view named differently from its cell, per-cell assignment and cut counts, a cut / an assignment stated twice (adjacent or apart), net names, per-instance reflection, location incl. (0,0) and negative, duplicated instance) in at most {} place(s). State = one library description + transport; non-trivial = at least one instance, assignment or cut.",
+                "placed libraries of n = {}..={} cells: every DAG (cell i may instantiate any subset of the cells j < i) x every listing order of the cells (n!) x reflection base (instance k of a cell gets combination (base+k) mod 4, so all four occur) x content profile (0/1/2 assignments and cuts per layout, witness quadruples with four different numbers); value deviations (transport: message as exported / through prost encode+decode, library / cell names incl. empty and non-ASCII, outline 1-3 steps / repeated step / zero, metals 0..3, views layout / layout+abstract / abstract-only leaf, a layout view named differently from its cell, per-cell assignment and cut counts, a cut / an assignment stated twice (adjacent or apart), crossings between layers three apart / on one layer / with the crossing track on layer 0, net names, per-instance reflection, location incl. (0,0) and negative, duplicated instance) in at most {} place(s). State = one library description + transport; non-trivial = at least one instance, assignment or cut.",
                 self.nmin,
                 self.nmax,
                 self.bound(t)
@@ -749,6 +749,24 @@ impl CaseDriver for Dag {
                 assigns.push((net, CrossD(1 + a, 11 + i + 5 * a, a, 23 + i + a)));
             }
             let mut cuts: Vec<CrossD> = (0..ncut).map(|a| CrossD(a, 31 + i, 1 + a, 47 + i + a)).collect();
+            // crossings whose two tracks are not on adjacent layers (three apart, the same layer, the crossing track on
+            // layer 0 below a far track layer): the schema carries both layers explicitly
+            match c.cost(4, "crossing-layers") {
+                0 => {}
+                k => {
+                    let far = |x: &CrossD| match k {
+                        1 => CrossD(x.0, x.1, x.0 + 3, x.3),
+                        2 => CrossD(x.0, x.1, x.0, x.3),
+                        _ => CrossD(x.0 + 4, x.1, 0, x.3),
+                    };
+                    if let Some(x) = cuts.first_mut() {
+                        *x = far(x);
+                    }
+                    if let Some(a) = assigns.first_mut() {
+                        a.1 = far(&a.1);
+                    }
+                }
+            }
             // the same cut / the same assignment stated twice in a row, or once more at the end of the list
             if !cuts.is_empty() {
                 match c.cost(3, "cut-repeated") {
